@@ -780,8 +780,12 @@ func (bc *BlockChain) WriteBlockWithoutState(block *types.Block) error {
 	bc.mu.Lock()
 	defer bc.mu.Unlock()
 
-	//write
-	rawdb.WriteBlock(bc.db, block)
+	//write (body and header in one atomic batch: a body without its header made HasBlock true for a block that can not be read)
+	blockBatch := bc.db.NewBatch()
+	rawdb.WriteBlock(blockBatch, block)
+	if err := blockBatch.Write(); err != nil {
+		return err
+	}
 
 	logging.Info("WriteBlockWithoutState.", "Height", block.NumberU64(), "Hash", block.Hash().String())
 
@@ -796,8 +800,12 @@ func (bc *BlockChain) WriteBlockWithState(block *types.Block, state *state.State
 	bc.mu.Lock()
 	defer bc.mu.Unlock()
 
-	//write
-	rawdb.WriteBlock(bc.db, block)
+	//write (body and header in one atomic batch, see WriteBlockWithoutState)
+	blockBatch := bc.db.NewBatch()
+	rawdb.WriteBlock(blockBatch, block)
+	if err := blockBatch.Write(); err != nil {
+		return err
+	}
 
 	//db commit
 	root, valRoot, stakingRoot, err := state.Commit(true)
